@@ -1,7 +1,6 @@
 //! C01 — the token mask is exactly the set of tokens the engine will accept next.
 
 use crate::engine::{factory, matcher, short_err, GrammarSpec};
-use crate::gen::any_grammar;
 use crate::runner::{Ctx, Prop, Tier, R};
 use crate::util::{esc, frac, Fnv};
 use crate::vocab::{Vocab, VocabSpec};
@@ -286,7 +285,7 @@ impl Prop for C01 {
         tier.pick(30, 360)
     }
     fn strategy(&self, tier: Tier) -> BoxedStrategy<Case> {
-        any_grammar()
+        crate::gen::any_grammar_core_ext()
             .prop_flat_map(move |g| (Just(g.clone()), vocab_for(g, tier), steps(40), proptest::collection::vec(any::<(u16, u16, u16)>(), 1..8)))
             .prop_map(|(g, vocab, walk, seq)| Case { g, vocab, walk, seq })
             .boxed()
